@@ -11,21 +11,21 @@ def exceptOfOption {α} (e : Err) : Option α → Except Err α
   | some a => .ok a
   | none => .error e
 
-/-- entry (r, c) of `one_knot_insert_once` for a node with span `s` and multiplicity `m` -/
-def insOnceEntry (U : List Rat) (p : Nat) (node : Rat) (s m r c : Nat) : Rat :=
+/-- entry (r, c) of `one_knot_insert_once` for a node with span `s` (rows above the blended ones are copies, rows below
+are shifted copies; the tolerance multiplicity of the node plays no role) -/
+def insOnceEntry (U : List Rat) (p : Nat) (node : Rat) (s r c : Nat) : Rat :=
   if s + 1 ≤ r + p ∧ r ≤ s then                       -- third loop (overrides)
     let alpha := (node - nth U r) / (nth U (r + p) - nth U r)
     if c = r then alpha else if c + 1 = r then 1 - alpha else 0
   else if c = r ∧ r + p ≤ s then 1                     -- first loop
-  else if c + 1 = r ∧ s ≤ c + m then 1                 -- second loop (c ≥ s − m)
+  else if c + 1 = r ∧ s ≤ c then 1                     -- second loop (c ≥ s)
   else 0
 
 def insOnce (k : KV) (node : Rat) : Except Err Mat := do
   if node < nth k.v 0 ∨ k.v.getLastD 0 < node then throw .other
   let s ← k.span node
-  let m ← k.mult node
   let n := k.npts
-  return (List.range (n + 1)).map fun r => (List.range n).map fun c => insOnceEntry k.v k.deg node s m r c
+  return (List.range (n + 1)).map fun r => (List.range n).map fun c => insOnceEntry k.v k.deg node s r c
 
 /-- `one_knot_insert(knotvector, node, times)` -/
 def insTimes : Nat → KV → Rat → Mat → Except Err (Mat × KV)
